@@ -679,13 +679,16 @@ class Stage:
         if depends_on(expr, self.u):
             raise Exception("Dependency on controls not supported yet for stage.der")
         ode = self._ode()
+        # Quadrature states are states too: their derivative is their integrand
+        x = vertcat(self.x, self.xq)
+        xdot = lambda res: vertcat(res["ode"], res["quad"])
         if depends_on(expr,self.t) or nominal_symbols:
-            return jtimes(expr, vertcat(self.x, self.t, *nominal_symbols), vertcat(ode(x=self.x, u=self.u, z=self.z, p=vertcat(self.p, self.v), t=self.t)["ode"], 1, *der_symbols))
+            return jtimes(expr, vertcat(x, self.t, *nominal_symbols), vertcat(xdot(ode(x=self.x, u=self.u, z=self.z, p=vertcat(self.p, self.v), t=self.t)), 1, *der_symbols))
         else:
             if expr in self.states:
-                return jtimes(expr, self.x, ode.call(dict(x=self.x, u=self.u, z=self.z, p=vertcat(self.p, self.v), t=self.t),True,False)["ode"])
+                return jtimes(expr, x, xdot(ode.call(dict(x=self.x, u=self.u, z=self.z, p=vertcat(self.p, self.v), t=self.t),True,False)))
             else:
-                return jtimes(expr, self.x, ode(x=self.x, u=self.u, z=self.z, p=vertcat(self.p, self.v), t=self.t)["ode"])
+                return jtimes(expr, x, xdot(ode(x=self.x, u=self.u, z=self.z, p=vertcat(self.p, self.v), t=self.t)))
 
 
     def integral(self, expr, grid='inf',refine=1):
